@@ -2,6 +2,8 @@ package main
 
 import (
 	"fmt"
+	"os"
+	"runtime/debug"
 	"go/ast"
 	"go/constant"
 	"go/token"
@@ -24,7 +26,12 @@ type TV struct {
 
 type specError struct{ msg string }
 
-func specErr(format string, a ...interface{}) { panic(specError{fmt.Sprintf(format, a...)}) }
+func specErr(format string, a ...interface{}) {
+	if os.Getenv("GVC_DEBUG") != "" {
+		debug.PrintStack()
+	}
+	panic(specError{fmt.Sprintf(format, a...)})
+}
 
 type SpecEnv struct {
 	vc        *VC
@@ -573,7 +580,7 @@ func (env *SpecEnv) mapLoadPure(m MapV, key string, vt types.Type) (Val, string)
 		return env.vc.mapLoad(env.st, m, key, vt)
 	}
 	w := width(vt) + 1
-	base := fmt.Sprintf("(* %s %d)", key, w)
+	base := env.vc.mapSlot(key, w)
 	present := env.vc.sel(env.st.mi, m.ref, base)
 	lay := layout(vt)
 	leaves := make([]string, len(lay))
@@ -832,6 +839,54 @@ func (env *SpecEnv) evalCall(x *ast.CallExpr) TV {
 			return boolTV(fmt.Sprintf("(forall ((%s Int)) (=> %s %s))", bv, rng, body))
 		}
 		return boolTV(fmt.Sprintf("(exists ((%s Int)) (and %s %s))", bv, rng, body))
+	case "visited":
+		// visited(k): key k was already delivered by the map iteration of the loop being annotated
+		if env.header == nil {
+			specErr("visited() is only meaningful in a loop invariant")
+		}
+		r := headerRange(env.header)
+		if r == nil {
+			specErr("visited(): the loop does not range over a map")
+		}
+		vis, ok := env.st.visited[vc.rangeID(r)]
+		if !ok {
+			specErr("visited(): no iteration state")
+		}
+		mt := r.X.Type().Underlying().(*types.Map)
+		k := env.coerce(env.evalTV(x.Args[0]), mt.Key())
+		return boolTV(fmt.Sprintf("(select %s %s)", vis, vc.mapKey(env.st, k.v, mt.Key())))
+	case "forallkey":
+		// forallkey(k, m, body): body holds for every key value k of map m's key type
+		id, ok := x.Args[0].(*ast.Ident)
+		if !ok || len(x.Args) != 3 {
+			specErr("forallkey(k, m, body)")
+		}
+		m := env.evalTV(x.Args[1])
+		mt, ok := m.t.Underlying().(*types.Map)
+		if !ok {
+			specErr("forallkey: second argument must be a map")
+		}
+		if width(mt.Key()) != 1 {
+			specErr("forallkey: only scalar key types")
+		}
+		vc.ctr++
+		bv := fmt.Sprintf("%s_q%d", id.Name, vc.ctr)
+		sub := *env
+		sub.vars = map[string]TV{}
+		for k, v := range env.vars {
+			sub.vars[k] = v
+		}
+		sub.vars[id.Name] = TV{IntV{bv}, mt.Key()}
+		sub.bound = map[string]bool{bv: true}
+		for k := range env.bound {
+			sub.bound[k] = true
+		}
+		vc.pure++
+		body := func() string {
+			defer func() { vc.pure-- }()
+			return sub.evalBoolExpr(x.Args[2])
+		}()
+		return boolTV(fmt.Sprintf("(forall ((%s Int)) %s)", bv, body))
 	case "unchanged":
 		cur := env.evalTV(x.Args[0])
 		old := env.withState(env.old).evalTV(x.Args[0])
